@@ -17,7 +17,7 @@ structure View where
   ph : List Bool     -- Contains(a) for a = 0..alpha
 deriving Repr
 
-def sortL (l : List Nat) : List Nat := (l.toArray.qsort (· < ·)).toList
+def sortL (l : List Nat) : List Nat := l.mergeSort (fun a b => decide (a ≤ b))
 
 def nodupB : List Nat → Bool
   | [] => true
